@@ -525,7 +525,11 @@ pub fn run(spec: &RunSpec) -> i32 {
                 }
             }
             // exited?
-            let exited = matches!(w.child.try_wait(), Ok(Some(_)));
+            let exit_status = match w.child.try_wait() {
+                Ok(Some(st)) => Some(st),
+                _ => None,
+            };
+            let exited = exit_status.is_some();
             if exited {
                 // drain the rest of the file once more on the next loop iteration
                 let len = fs::metadata(&w.outfile).map(|m| m.len()).unwrap_or(0);
@@ -536,7 +540,19 @@ pub fn run(spec: &RunSpec) -> i32 {
                     // died inside a case: abort, stack overflow, OOM ...
                     let stderr = fs::read_to_string(w.outfile.with_extension("stderr")).unwrap_or_default();
                     let tail: String = stderr.lines().rev().take(6).collect::<Vec<_>>().into_iter().rev().collect::<Vec<_>>().join(" | ");
-                    record_crash(spec, &mut agg, case, &w.variant, "process-died", &tail, &run_dir);
+                    let killed_from_outside = {
+                        use std::os::unix::process::ExitStatusExt;
+                        exit_status.and_then(|st| st.signal()) == Some(9)
+                    };
+                    if killed_from_outside {
+                        // SIGKILL that this orchestrator did not send: the kernel's out-of-memory
+                        // killer (sanitizer builds of big cases) or an operator. Says nothing about
+                        // the code under test.
+                        agg.evaluations += 1;
+                        *agg.inconclusive.entry(format!("worker process ({} build) was killed from outside during a case (SIGKILL, e.g. out-of-memory killer)", w.variant)).or_default() += 1;
+                    } else {
+                        record_crash(spec, &mut agg, case, &w.variant, "process-died", &tail, &run_dir);
+                    }
                     let next = case + w.step;
                     if next < w.end {
                         w.child = spawn(spec, &w.variant, next, w.step, w.end, &w.outfile, w.threads);
